@@ -105,7 +105,7 @@ func runC07(rc *RunCtx) {
 		return
 	}
 	defer c.Close()
-	s := &SW{rc: rc, c: c, RollbackProb: 0.05}
+	s := &SW{rc: rc, c: c, RollbackProb: 0.05, UpperProb: 0.08}
 	m := &c07mon{s: s, rc: rc, paths: map[string]bool{}}
 	const GB = int64(1_000_000_000)
 	step := func(dt time.Duration) bool {
@@ -163,8 +163,14 @@ func runC07(rc *RunCtx) {
 			}
 			days := int64(30 + rc.Intn(60))
 			pi, had := plan(o)
-			r := s.BuyPlan(o, o, bytes, days, "")
-			rc.Logf("h=%d acc%d buys %d bytes %d days -> %d %s", c.Height, o, bytes, days, r.Code, failLog(r))
+			buyer := o
+			if rc.Chance(0.25) {
+				// somebody else pays for o's plan (a gift): o's usage and files are untouched by who pays
+				buyer = (o + 1 + rc.Intn(4)) % 5
+				rc.Count("gift_purchases", 1)
+			}
+			r := s.BuyPlan(buyer, o, bytes, days, "")
+			rc.Logf("h=%d acc%d buys %d bytes %d days for acc%d -> %d %s", c.Height, buyer, bytes, days, o, r.Code, failLog(r))
 			if r.OK() {
 				if had && pi.End.After(c.Time) {
 					m.paths["upgrade"] = true
